@@ -19,16 +19,21 @@ out = ['## 10. Which checks catch which changes\n',
        'Written by fresh sub-agents that saw only the property text and a scratch worktree, never `/verif`. Each was confirmed by',
        're-running its demonstration on an original and a changed scratch tree (`tools/seed_keep.sh`); the seed agents ran the',
        "repository's suite on the changed code.\n",
-       '| Seed | Property | What it changes / needs | Result |', '|---|---|---|---|']
+       '| Seed | Property | What it changes / needs | History of results | Last full sweep (quick tier, present check) |', '|---|---|---|---|---|']
 for f in sorted(glob.glob(os.path.join(HERE, 'seeded', '*', 'meta.json'))):
     tag = os.path.basename(os.path.dirname(f))
     m = json.load(open(f))
     runs = '; '.join(f'{k}: {v}' for k, v in m.get('checks_run', {}).items())
-    out.append(f"| `{tag}` | {m['property']} | {m['change']} — needs: {m['needs']} | {runs} |")
+    last = res.get((m['property'], tag), 'not in last sweep')
+    if m.get('status'):
+        last += ' — ' + m['status']
+    if m.get('rebased'):
+        last += ' — patch ' + m['rebased']
+    out.append(f"| `{tag}` | {m['property']} | {m['change']} — needs: {m['needs']} | {runs} | {last} |")
 out += ['', '### 10.2 Own mutants (`mutants/<ID>/`)\n',
         '`*.json` = edits written by the author of the check (ideas from the **M.** lists of section 4); `regress_<commit>.patch` =',
         'reverse diff of a repair made in `/repo` (the defect the monitor originally found). Result of the last full sweep',
-        '(`tools/run_mutants.sh`, quick tier):\n']
+        '(`tools/sweep_all.sh`, quick tier):\n']
 byprop = {}
 for f in sorted(glob.glob(os.path.join(HERE, 'mutants', 'C*', '*'))):
     prop = os.path.basename(os.path.dirname(f))
@@ -39,6 +44,8 @@ for f in sorted(glob.glob(os.path.join(HERE, 'mutants', 'C*', '*'))):
             why = json.load(open(f)).get('why', '')
         except Exception:
             pass
+    if name.endswith('.txt'):
+        continue
     byprop.setdefault(prop, []).append((name, why, res.get((prop, name), 'not in last sweep')))
 out += ['| Property | Mutants (result) |', '|---|---|']
 for prop in sorted(byprop):
